@@ -44,6 +44,9 @@ def gen_structured(rng, vocab):
         elif r < 0.7:
             # (names may contain full-width ASCII and ideographic spaces: a word is the text as written, matched as written)
             name = rng.choice(["どー", "あ", "メロ", "x1", "ドレ", rng.choice(names) + "ー", rng.choice(names), "サビ１", "Ｖ", "メロ　Ａ", "ａｂ", "x１", "𝄞", "𝄞メロ", "x😀", "𠮷野"])      # (… and characters beyond the basic plane: a word is counted in characters)
+            name = rng.choice([name, name, "AB", "Intro", "Bメロ2"])
+            # (a word defined again takes the new value from there on — half-width names included, which are short in bytes but not in characters)
+            if userdefs and rng.random() < 0.35: name = rng.choice(userdefs)
             value = rng.choice(["c", "d8", "[2 e]", "o4", "", "l8 c d", "{v}", "c\nd", "\ne\n\n"])      # a definition may span lines
             if "{" in name or "}" in name: continue
             form = rng.choice(["~{%s}={%s}", "~{%s} = {%s}", "～{%s}={%s}", "~ {%s}{%s}"])
